@@ -249,10 +249,17 @@ def run(ctx: Ctx):
                                    "BYWEEKDAY", "BYMONTHDAY", "BYYEARDAY", "BYWEEKNO", "BYMONTH", "BYSETPOS", "WKST", "SKIP")]
     pool = POOL if not ctx.quick else POOL[::2] + [POOL[-2], POOL[-1]]
     freqs = FREQS if not ctx.quick else [FREQS[3], FREQS[5], FREQS[6]]
-    r = ctx.mc("MC_Recur", cfg_text(spec="Spec", constants={"MaxParts": 2 if ctx.quick else 3},
+    r = ctx.mc("MC_Recur", cfg_text(spec="Spec", constants={"MaxParts": 2},
                                     invariants=["InvGrammar", "InvDen", "InvStable", "InvOrder", "Vec"]),
                defs={"Pool": set(pool), "Freqs": set(freqs), "Canon": canon}, workers=6 if ctx.quick else 14, timeout=6000)
     vecs = r.prints
+    if not ctx.quick:
+        # three parts in every insertion order over a core of the pool (all 41 instances would be 460k rules)
+        core = POOL[::3] + POOL[-8:-2:2]
+        r3 = ctx.mc("MC_Recur", cfg_text(spec="Spec", constants={"MaxParts": 3},
+                                         invariants=["InvGrammar", "InvDen", "InvStable", "InvOrder", "Vec"]),
+                    defs={"Pool": set(core), "Freqs": set(FREQS[2:]), "Canon": canon}, workers=14, timeout=6000)
+        vecs = vecs + [v for v in r3.prints if len(v["rule"]) == 4]
     if len(vecs) < 1000:
         raise Machinery(f"too few rules {len(vecs)}")
     ctx.sample(vecs[len(vecs) // 2])
